@@ -327,6 +327,34 @@ def _k4(ctx: Context, ss, ser, des) -> None:
     sep_default = ctx.const(af, af.node.args.defaults[-1], None) if af.node.args.defaults else None
     ck.check("C16.K4", seps == {bytes([sep_default or 0, 0])} and sep_default == 0, "sequence separator emitted (00 00) = separator the splitter looks for (type 0, length 0)", f"{M}:separator",
              f"serialize_typing_sequence emits {sorted(seps)} but tlv_array splits on type {sep_default}", sf.loc())
+    # a separator stands between neighbours because of their POSITION: a test that decides whether the separator is
+    # emitted must not look at the items themselves (`if val != value[-1]` drops the separator after every item that equals
+    # the last one - two equal neighbours then decode as one item)
+    scfg = ctx.cfg(sf.qualname)
+    seq_p = ("param", sf.pos_params[1]) if len(sf.pos_params) >= 2 else None
+    sep_nodes = [n for n in scfg.nodes for c in ctx.calls(n) if isinstance(c.func, ast.Attribute) and c.func.attr == "extend" and c.args
+                 and isinstance(ctx.const(sf, c.args[0], None), bytes) and any(fr[0] == "loop" and fr[2] == "body" for fr in n.frames)]
+
+    def _is_item(s_) -> bool:
+        if s_[0] in ("iter", "each") and len(s_) == 2:
+            if s_[1] == seq_p:
+                return True
+        if s_[0] == "sub" and len(s_) == 3 and s_[1][0] in ("iter", "each") and s_[2] == ("const", 1) and s_[1][1][0] == "call" and s_[1][1][1] == ("glob", "enumerate"):
+            return True
+        return s_[0] == "sub" and len(s_) == 3 and s_[1] == seq_p  # value[i] / value[-1]
+
+    for sn in sep_nodes:
+        for tn in scfg.nodes:
+            if tn.kind != "test" or not any(fr[0] == "loop" and fr[2] == "body" for fr in tn.frames):
+                continue
+            gates_it = any(scfg.find_path(tn.id, sn.id, avoid_edges=scfg.out_edges(tn, (lab,))) is None and scfg.find_path(tn.id, sn.id) is not None for lab in ("T", "F"))
+            if not gates_it:
+                continue
+            tt = strip_sites(T.of(scfg, tn, tn.exprs[0]))
+            by_value = contains(tt, _is_item)
+            ck.check("C16.K4", not by_value, "the test that places a separator looks at positions, not at the items", f"{ctx.fkey(sf)}:separator-by-value",
+                     f"serialize_typing_sequence decides by `{tn.text()}` - a comparison of the items themselves - whether a separator follows: equal items lose "
+                     "the separator between them and decode as one item", ctx.loc(sf, tn))
     df = ctx.func(f"{M}.deserialize_typing_sequence")
     explicit = [x for x in walk_own(df.node) if isinstance(x, ast.Call) and ctx.resolve_name(df, x.func) == f"{M}.tlv_array" and (len(x.args) > 1 or x.keywords)]
     ck.check("C16.K4", not explicit, "the sequence decoder uses the default separator", f"{ctx.fkey(df)}:separator-arg", "deserialize_typing_sequence passes its own separator", df.loc())
@@ -692,6 +720,10 @@ MANIFEST = {
 TWIN_FILES = ["aiohomekit/tlv8.py", "aiohomekit/meshcop.py", "aiohomekit/controller/ble/structs.py", "aiohomekit/controller/coap/structs.py", "aiohomekit/model/characteristics/structs.py"]
 _F = "aiohomekit/tlv8.py"
 VARIANTS = [
+    {"name": "separator after every item that differs from the last one (by value, not by position)", "file": "aiohomekit/tlv8.py",
+     "old": "    for val in value_iter:\n        result.extend(b\"\\x00\\x00\")\n        result.extend(val.encode())\n",
+     "new": "    for val in value_iter:\n        if val != value[0]:\n            result.extend(b\"\\x00\\x00\")\n        result.extend(val.encode())\n",
+     "expect": "C16.K4"},
     {"name": "single struct-valued characteristic decoded through tlv_array (None for the all-unset message)",
      "file": "aiohomekit/model/characteristics/characteristic.py",
      "old": "                return struct.decode(new_val)\n",
